@@ -15,6 +15,13 @@ import Mathlib.Data.List.Forall2
       `decodeStreamWith_eq`                  (complete decoder: `decodeGeometry`, any body decoders),
     * `geomFront` / `finishGeom`             and for the sequential decoder `decodeGeometrySeq`:
       `decodeGeometrySeq_eq`                 `decodeGeometrySeq opts = geomFront >>= finishGeom opts`;
+    * `decodeSeqStatesLegacy`, `decodeSeqStatesV`, `finishAttV`   the same for the controller of
+                                             bitstreams < 2.0 and for the version dispatch
+                                             (`GeomFront.legacy` records which controller ran);
+                                             `finishSeqPure_eq_finishPure`: on the states the
+                                             legacy controller lets through (well formed, not
+                                             `Blocked`) its last phase equals `finishPure`, hence
+                                             `finishGeomPureV_eq`;
     * `finishPure`, `finishAtt_eq`           the last phase is a pure partial function of the
                                              per-attribute state (`ofOption ∘ finishPure`);
     * `decodeGeometrySeq_some_iff`           hence: `decodeGeometrySeq opts` accepts with result `r`
@@ -177,6 +184,14 @@ theorem mapOpt_rel₂ {α β γ} (R : β → γ → Prop) (f : α → Option β)
             exact List.Forall₂.cons (h a (by simp) b c hfa hga)
               (ih (fun x hx => h x (by simp [hx])) bs' cs' hfas hgas)
 
+theorem mapOpt_congr {α β} (f g : α → Option β) (l : List α) (h : ∀ x ∈ l, f x = g x) :
+    mapOpt f l = mapOpt g l := by
+  induction l with
+  | nil => rfl
+  | cons a as ih =>
+    simp only [mapOpt]
+    rw [h a (by simp), ih (fun x hx => h x (by simp [hx]))]
+
 /-! ### postconditions -/
 
 /-- `Post m P`: whenever `m` succeeds, its result and final state satisfy `P` -/
@@ -334,6 +349,63 @@ theorem decodeSequentialAttributes_eq (opts : DecOpts) (n : Nat) :
   simp only [bind, pure, DecM.andThen_assoc]
   rfl
 
+/-! ## the controller of bitstreams < 2.0 -/
+
+/-- `decodeSequentialAttributesLegacy` (literally the same code) without its last loop: for
+    streams < 2.0 the values are decoded, checked (`storeValuesCheck`) and stored attribute by
+    attribute; nothing here depends on the options -/
+def decodeSeqStatesLegacy (numPoints : Nat) : DecM (List SeqAttState) := do
+  let descs ← decodeAttDescs
+  alloc "controller.sequential_decoders" (8 * descs.length)
+  let states ← mapM' (fun (d : AttDesc) => do
+      let dt ← rdU8
+      require (dt ≤ 3)
+      if dt == 2 then require (d.dataType == Generated.DT_FLOAT32.toNat)
+      if dt == 3 then require (d.numComponents == 3 && d.dataType == Generated.DT_FLOAT32.toNat)
+      pure ({ desc := d, decoderType := dt } : SeqAttState)) descs
+  require (numPoints < 2^31)
+  alloc "linear_sequencer.point_ids" (4 * numPoints)
+  let states ← mapM' (fun (s : SeqAttState) => do
+      let stride := dataTypeLength s.desc.dataType * s.desc.numComponents
+      alloc "attribute.Reset" (numPoints * stride)
+      if s.decoderType == 0 then
+        let b ← bytes (numPoints * stride)
+        pure { s with rawValues := b }
+      else
+        let nc := if s.decoderType == 3 then 2 else s.desc.numComponents
+        let sel ← decodeSchemeSelection s.decoderType
+        let tr ← decodeTransformParams s.decoderType s.desc.numComponents
+        let vals ← integerValuesTail sel numPoints nc
+        let s' := { s with portable := vals, transform := tr }
+        storeValuesCheck s'
+        pure s') states
+  pure states
+
+theorem decodeSequentialAttributesLegacy_eq (opts : DecOpts) (n : Nat) :
+    decodeSequentialAttributesLegacy opts n =
+      (do let st ← decodeSeqStatesLegacy n; mapM' (fun s => finishSeqAttribute opts s n none) st) := by
+  unfold decodeSequentialAttributesLegacy decodeSeqStatesLegacy
+  simp only [bind, pure, DecM.andThen_assoc]
+
+/-- the last phase of the controller that decoded the stream (`legacy`: bitstream < 2.0) -/
+def finishAttV (legacy : Bool) (opts : DecOpts) (numPoints : Nat) (s : SeqAttState) :
+    DecM Attribute :=
+  if legacy = true then finishSeqAttribute opts s numPoints none else finishAtt opts numPoints s
+
+/-- `decodeSequentialAttributesV` without the last loop; also returns which controller ran -/
+def decodeSeqStatesV (numPoints : Nat) : DecM (Bool × List SeqAttState) := do
+  let ver ← version
+  if ver < bsVersion 2 0 then (do let st ← decodeSeqStatesLegacy numPoints; pure (true, st))
+  else (do let st ← decodeSeqStates numPoints; pure (false, st))
+
+theorem decodeSequentialAttributesV_eq (opts : DecOpts) (n : Nat) :
+    decodeSequentialAttributesV opts n =
+      (do let p ← decodeSeqStatesV n; mapM' (finishAttV p.1 opts n) p.2) := by
+  unfold decodeSequentialAttributesV decodeSeqStatesV
+  simp only [bind, pure, DecM.andThen_assoc, DecM.ite_andThen, DecM.ret_andThen,
+    decodeSequentialAttributes_eq, decodeSequentialAttributesLegacy_eq]
+  rfl
+
 /-! ## the whole decoder: everything before the last phase + the last phase -/
 
 /-- everything the decoder has computed before `TransformAttributesToOriginalFormat` -/
@@ -344,31 +416,33 @@ structure GeomFront where
   metadata : Option GeometryMetadata
   /-- `none`: the stream has no attributes decoder -/
   states : Option (List SeqAttState)
+  /-- the states come from the controller of bitstreams < 2.0 -/
+  legacy : Bool
 
 /-- `decodePointAttributesSeq` without the last phase -/
-def decodePointStatesSeq (numPoints : Nat) : DecM (Option (List SeqAttState)) := do
+def decodePointStatesSeq (numPoints : Nat) : DecM (Bool × Option (List SeqAttState)) := do
   let numDecoders ← rdU8
-  if numDecoders == 0 then pure none
-  else if numDecoders == 1 then (do let st ← decodeSeqStates numPoints; pure (some st))
+  if numDecoders == 0 then pure (false, none)
+  else if numDecoders == 1 then (do let p ← decodeSeqStatesV numPoints; pure (p.1, some p.2))
   else failWith (.unsupported "more than one sequential attributes decoder")
 
 /-- the last phase over all attributes -/
-def finishAtts (opts : DecOpts) (numPoints : Nat) :
+def finishAtts (opts : DecOpts) (numPoints : Nat) (legacy : Bool) :
     Option (List SeqAttState) → DecM (List Attribute)
   | none => pure []
-  | some st => mapM' (finishAtt opts numPoints) st
+  | some st => mapM' (finishAttV legacy opts numPoints) st
 
 theorem decodePointAttributesSeq_eq (opts : DecOpts) (n : Nat) :
     decodePointAttributesSeq opts n =
-      (do let st ← decodePointStatesSeq n; finishAtts opts n st) := by
+      (do let p ← decodePointStatesSeq n; finishAtts opts n p.1 p.2) := by
   unfold decodePointAttributesSeq decodePointStatesSeq
   simp only [bind, pure, DecM.andThen_assoc, DecM.ite_andThen, DecM.failWith_andThen,
-    DecM.ret_andThen, decodeSequentialAttributes_eq]
+    DecM.ret_andThen, decodeSequentialAttributesV_eq]
   rfl
 
 /-- the last phase + assembling the result -/
 def finishGeom (opts : DecOpts) (fr : GeomFront) : DecM DecodeResult := do
-  let atts ← finishAtts opts fr.numPoints fr.states
+  let atts ← finishAtts opts fr.numPoints fr.legacy fr.states
   pure ⟨{ isMesh := fr.isMesh, numPoints := fr.numPoints, faces := fr.faces, atts := atts },
         fr.metadata⟩
 
@@ -401,14 +475,14 @@ def streamFront : DecM StreamFront := do
   if isMesh then
     let (numPoints, faces) ← decodeSeqConnectivity
     let st ← decodePointStatesSeq numPoints
-    pure (.seq ⟨true, numPoints, faces, md, st⟩)
+    pure (.seq ⟨true, numPoints, faces, md, st.2, st.1⟩)
   else
     let np ← rdI32
     -- set_num_points(int32 → uint32)
     let numPoints := toUnsigned 32 np
     declare numPoints
     let st ← decodePointStatesSeq numPoints
-    pure (.seq ⟨false, numPoints, [], md, st⟩)
+    pure (.seq ⟨false, numPoints, [], md, st.2, st.1⟩)
 
 /-- the options-dependent rest of `decodeStreamWith` -/
 def finishStream (eb kd : DecOpts → DecM Geometry) (opts : DecOpts) :
@@ -500,11 +574,72 @@ theorem finishAtt_eq (opts : DecOpts) (n : Nat) (s : SeqAttState) :
           split <;> rfl
         · rfl
 
+/-- `finishSeqAttribute` (streams < 2.0) without the skip case: no check is left, they ran while
+    the values were decoded (`storeValuesCheck`) -/
+def finishNormalLegacy (numPoints : Nat) (s : SeqAttState) : Option Attribute :=
+  match s.decoderType with
+  | 1 =>
+    some (s.desc.toAttribute numPoints
+      (s.portable.map (intToLE (dataTypeLength s.desc.dataType))).flatten)
+  | 2 =>
+    match s.transform with
+    | .quantization bits mins range =>
+      some (s.desc.toAttribute numPoints
+        (dequantAll range bits.toNat mins s.portable mins []).flatten)
+    | _ => none
+  | _ =>
+    match s.transform with
+    | .octahedron bits =>
+      some (s.desc.toAttribute numPoints (octaAll bits.toNat s.portable []).flatten)
+    | _ => none
+
+/-- `finishSeqAttribute … none` as a pure function -/
+def finishSeqPure (skip : List Nat) (numPoints : Nat) (s : SeqAttState) : Option Attribute :=
+  if (s.decoderType == 0) = true then some (s.desc.toAttribute numPoints s.rawValues)
+  else if skip.contains s.desc.attType = true then some (portableAtt numPoints s)
+  else finishNormalLegacy numPoints s
+
+theorem finishSeqAttribute_eq (opts : DecOpts) (n : Nat) (s : SeqAttState) :
+    finishSeqAttribute opts s n none = ofOption (finishSeqPure opts.skip n s) := by
+  obtain ⟨d, k, raw, port, tr⟩ := s
+  unfold finishSeqAttribute finishSeqPure finishNormalLegacy
+  simp only [pure]
+  by_cases hc : opts.skip.contains d.attType = true
+  · rcases k with _ | _ | _ | k <;> simp only [hc, if_true] <;> rfl
+  · rcases k with _ | _ | _ | k <;> simp only [hc] <;> cases tr <;> rfl
+
+def finishPureV (legacy : Bool) (skip : List Nat) (numPoints : Nat) (s : SeqAttState) :
+    Option Attribute :=
+  if legacy = true then finishSeqPure skip numPoints s else finishPure skip numPoints s
+
+theorem finishAttV_eq (legacy : Bool) (opts : DecOpts) (n : Nat) (s : SeqAttState) :
+    finishAttV legacy opts n s = ofOption (finishPureV legacy opts.skip n s) := by
+  unfold finishAttV finishPureV
+  split
+  · exact finishSeqAttribute_eq opts n s
+  · exact finishAtt_eq opts n s
+
+def finishAttsPureV (skip : List Nat) (numPoints : Nat) (legacy : Bool) :
+    Option (List SeqAttState) → Option (List Attribute)
+  | none => some []
+  | some st => DecM.mapOpt (finishPureV legacy skip numPoints) st
+
+/-- the last phase as a pure function of the front, for the controller that decoded the stream -/
+def finishGeomPureV (skip : List Nat) (fr : GeomFront) : Option DecodeResult :=
+  match finishAttsPureV skip fr.numPoints fr.legacy fr.states with
+  | none => none
+  | some atts =>
+    some ⟨{ isMesh := fr.isMesh, numPoints := fr.numPoints, faces := fr.faces, atts := atts },
+          fr.metadata⟩
+
 def finishAttsPure (skip : List Nat) (numPoints : Nat) :
     Option (List SeqAttState) → Option (List Attribute)
   | none => some []
   | some st => DecM.mapOpt (finishPure skip numPoints) st
 
+/-- the last phase in terms of `finishPure` only; equal to `finishGeomPureV` on every front that
+    `geomFront` produces (`finishGeomPureV_eq`): on the states of the controller < 2.0 the two
+    per-attribute functions agree -/
 def finishGeomPure (skip : List Nat) (fr : GeomFront) : Option DecodeResult :=
   match finishAttsPure skip fr.numPoints fr.states with
   | none => none
@@ -512,59 +647,22 @@ def finishGeomPure (skip : List Nat) (fr : GeomFront) : Option DecodeResult :=
     some ⟨{ isMesh := fr.isMesh, numPoints := fr.numPoints, faces := fr.faces, atts := atts },
           fr.metadata⟩
 
-theorem finishAtts_eq (opts : DecOpts) (n : Nat) (st : Option (List SeqAttState)) :
-    finishAtts opts n st = ofOption (finishAttsPure opts.skip n st) := by
+theorem finishAtts_eq (opts : DecOpts) (n : Nat) (legacy : Bool) (st : Option (List SeqAttState)) :
+    finishAtts opts n legacy st = ofOption (finishAttsPureV opts.skip n legacy st) := by
   cases st with
   | none => rfl
   | some l =>
-    simp only [finishAtts, finishAttsPure]
+    simp only [finishAtts, finishAttsPureV]
     rw [← DecM.mapM'_ofOption]
     congr 1
     funext x
-    exact finishAtt_eq opts n x
+    exact finishAttV_eq legacy opts n x
 
 theorem finishGeom_eq (opts : DecOpts) (fr : GeomFront) :
-    finishGeom opts fr = ofOption (finishGeomPure opts.skip fr) := by
-  unfold finishGeom finishGeomPure
+    finishGeom opts fr = ofOption (finishGeomPureV opts.skip fr) := by
+  unfold finishGeom finishGeomPureV
   rw [finishAtts_eq]
-  cases finishAttsPure opts.skip fr.numPoints fr.states <;> rfl
-
-/-- `decodeGeometrySeq opts` accepts with result `r` and final state `s'` exactly when the front
-    part accepts with final state `s'` and the (pure, input-free) last phase is defined -/
-theorem decodeGeometrySeq_some_iff (opts : DecOpts) (s s' : DSt) (r : DecodeResult) :
-    decodeGeometrySeq opts s = (some r, s') ↔
-      ∃ fr, geomFront s = (some fr, s') ∧ finishGeomPure opts.skip fr = some r := by
-  rw [decodeGeometrySeq_eq]
-  simp only [bind]
-  rw [DecM.andThen_some]
-  constructor
-  · rintro ⟨fr, s1, h1, h2⟩
-    rw [finishGeom_eq, DecM.ofOption_some] at h2
-    obtain ⟨h2, rfl⟩ := h2
-    exact ⟨fr, h1, h2⟩
-  · rintro ⟨fr, h1, h2⟩
-    refine ⟨fr, s', h1, ?_⟩
-    rw [finishGeom_eq, DecM.ofOption_some]
-    exact ⟨h2, rfl⟩
-
-theorem decodeGeometrySeq_isSome_iff (opts : DecOpts) (s : DSt) :
-    (decodeGeometrySeq opts s).1.isSome ↔
-      ∃ fr s', geomFront s = (some fr, s') ∧ (finishGeomPure opts.skip fr).isSome := by
-  constructor
-  · intro h
-    cases hd : decodeGeometrySeq opts s with
-    | mk o s' =>
-      rw [hd] at h
-      cases o with
-      | none => cases h
-      | some r =>
-        obtain ⟨fr, h1, h2⟩ := (decodeGeometrySeq_some_iff opts s s' r).1 hd
-        exact ⟨fr, s', h1, by rw [h2]; rfl⟩
-  · rintro ⟨fr, s', h1, h2⟩
-    cases hf : finishGeomPure opts.skip fr with
-    | none => rw [hf] at h2; cases h2
-    | some r =>
-      rw [(decodeGeometrySeq_some_iff opts s s' r).2 ⟨fr, h1, hf⟩]; rfl
+  cases finishAttsPureV opts.skip fr.numPoints fr.legacy fr.states <;> rfl
 
 theorem finishGeomPure_isSome_iff (skip : List Nat) (fr : GeomFront) :
     (finishGeomPure skip fr).isSome ↔
@@ -688,104 +786,6 @@ theorem decodeSeqStates_wf (n : Nat) : Post (decodeSeqStates n) (fun l _ => ∀ 
   refine Post.bindP (Post.mapM'_all (fun x hx => phase2_post n x hx) st1 h1) ?_
   intro st2 h2
   exact Post.mapM'_all (fun x hx => phase3_post x hx) st2 h2
-
-/-- the states handed to the last phase come out of `decodeSeqStates`, run for the number of
-    points of the geometry and ending in the final decoder state -/
-theorem decodePointStatesSeq_post (n : Nat) :
-    Post (decodePointStatesSeq n) (fun o s' => ∀ sts, o = some sts →
-      ∃ s0, decodeSeqStates n s0 = (some sts, s')) := by
-  unfold decodePointStatesSeq
-  intro s o s' h
-  obtain ⟨nd, s1, _, h2⟩ := (andThen_some _ _ s s' o).1 h
-  split at h2
-  · cases h2; intro sts hs; cases hs
-  · split at h2
-    · obtain ⟨st, s2, h3, h4⟩ := (andThen_some _ _ s1 s' o).1 h2
-      cases h4
-      intro sts hs
-      cases hs
-      exact ⟨s1, h3⟩
-    · cases h2
-
-/-- the property of `geomFront_states`, on a `StreamFront` -/
-def StreamFront.StatesOK : StreamFront → DSt → Prop
-  | .seq fr, s' => ∀ sts, fr.states = some sts →
-      ∃ s0, decodeSeqStates fr.numPoints s0 = (some sts, s')
-  | .eb _, _ => True
-  | .kd _, _ => True
-
-theorem streamFront_states : Post streamFront StreamFront.StatesOK := by
-  unfold streamFront
-  refine Post.bind' ?_; intro h
-  refine Post.bind' ?_; intro _
-  refine Post.bind' ?_; intro _
-  refine Post.ite (Post.failWith _ _) ?_
-  refine Post.ite (Post.failWith _ _) ?_
-  refine Post.bind' ?_; intro _
-  have key : ∀ md : Option GeometryMetadata, Post
-      (if (h.encoderMethod != 0 && h.encoderType == 1) = true then pure (StreamFront.eb md)
-        else
-        if (h.encoderMethod != 0) = true then pure (StreamFront.kd md)
-        else
-          if (h.encoderType == 1) = true then do
-            let __x ← decodeSeqConnectivity
-            match __x with
-              | (numPoints, faces) => do
-                let st ← decodePointStatesSeq numPoints
-                pure (StreamFront.seq ⟨true, numPoints, faces, md, st⟩)
-          else do
-            let np ← rdI32
-            declare (toUnsigned 32 np)
-            let st ← decodePointStatesSeq (toUnsigned 32 np)
-            pure (StreamFront.seq ⟨false, toUnsigned 32 np, [], md, st⟩))
-      StreamFront.StatesOK := by
-    intro md
-    refine Post.ite (Post.pure (fun _ => trivial)) ?_
-    refine Post.ite (Post.pure (fun _ => trivial)) ?_
-    refine Post.ite ?_ ?_
-    · apply Post.bind'; rintro ⟨np, faces⟩
-      refine Post.bind (decodePointStatesSeq_post np) ?_
-      intro o s1 ho b s' hb
-      cases hb
-      exact ho
-    · refine Post.bind' ?_; intro np
-      refine Post.bind' ?_; intro _
-      refine Post.bind (decodePointStatesSeq_post _) ?_
-      intro o s1 ho b s' hb
-      cases hb
-      exact ho
-  refine Post.ite ?_ ?_
-  · refine Post.bind' ?_; intro md
-    exact key md
-  · refine Post.bind' ?_; intro md
-    exact key md
-
-/-- `geomFront` accepts exactly when `streamFront` accepts with a sequential stream -/
-theorem geomFront_some_iff (s s' : DSt) (fr : GeomFront) :
-    geomFront s = (some fr, s') ↔ streamFront s = (some (.seq fr), s') := by
-  unfold geomFront
-  simp only [bind]
-  rw [DecM.andThen_some]
-  constructor
-  · rintro ⟨fg, s1, h1, h2⟩
-    cases fg with
-    | seq fr' => cases h2; exact h1
-    | eb _ => cases h2
-    | kd _ => cases h2
-  · intro h
-    exact ⟨_, _, h, rfl⟩
-
-theorem geomFront_states :
-    Post geomFront (fun fr s' => ∀ sts, fr.states = some sts →
-      ∃ s0, decodeSeqStates fr.numPoints s0 = (some sts, s')) := by
-  intro s fr s' h
-  exact streamFront_states s _ s' ((geomFront_some_iff s s' fr).1 h)
-
-/-- every per-attribute state handed to the last phase is well formed -/
-theorem geomFront_wf (s s' : DSt) (fr : GeomFront) (h : geomFront s = (some fr, s'))
-    (sts : List SeqAttState) (hs : fr.states = some sts) : ∀ x ∈ sts, x.WF := by
-  obtain ⟨s0, h0⟩ := geomFront_states s fr s' h sts hs
-  exact decodeSeqStates_wf fr.numPoints s0 sts s' h0
 
 /-! ## the last phase, case by case -/
 
@@ -921,6 +921,353 @@ theorem finishPure_isSome_iff (S : List Nat) (n : Nat) (x : SeqAttState) (hx : x
     · exact Or.inl hm
     · right; intro hb; have := this.2 ⟨hm, hb⟩; cases this
 
+/-! ## the controller of bitstreams < 2.0: what it guarantees -/
+
+theorem finishNormalLegacy_eq (n : Nat) (x : SeqAttState) (hx : x.WF) (hb : ¬ x.Blocked) :
+    finishNormalLegacy n x = finishNormal n x := by
+  rcases hx with ⟨h | h, ht⟩ | ⟨h, _, bits, mins, range, ht, _⟩ | ⟨h, _, _, bits, ht⟩
+  · simp only [finishNormalLegacy, finishNormal, h, ht]
+  · have hr : 1 ≤ x.desc.dataType ∧ x.desc.dataType ≤ 6 :=
+      Classical.byContradiction fun hc => hb (Or.inl ⟨h, hc⟩)
+    simp [finishNormalLegacy, finishNormal, h, hr.1, hr.2]
+  · simp only [finishNormalLegacy, finishNormal, h, ht]
+  · have hr : (2:Int) ≤ bits ∧ (bits:Int) ≤ 30 :=
+      Classical.byContradiction fun hc => hb (Or.inr ⟨h, bits, ht, hc⟩)
+    simp [finishNormalLegacy, finishNormal, h, ht, hr.1, hr.2]
+
+/-- on the states the controller < 2.0 lets through, its last phase is `finishPure` -/
+theorem finishSeqPure_eq_finishPure (S : List Nat) (n : Nat) (x : SeqAttState) (hx : x.WF)
+    (hb : ¬ x.Blocked) : finishSeqPure S n x = finishPure S n x := by
+  unfold finishSeqPure finishPure
+  rw [finishNormalLegacy_eq n x hx hb]
+
+theorem decodeTransformParams_post (dt nc : Nat) :
+    Post (decodeTransformParams dt nc) (fun tr _ =>
+      (dt = 2 → ∃ (bits : Nat) (mins : List Nat) (range : Nat),
+        tr = .quantization bits mins range ∧ 1 ≤ bits ∧ bits ≤ 30) ∧
+      (dt = 3 → ∃ bits : Nat, tr = .octahedron bits) ∧
+      (dt ≠ 2 → dt ≠ 3 → tr = .none)) := by
+  unfold decodeTransformParams
+  split
+  · rename_i hc
+    have hc : dt = 2 := by simpa using hc
+    refine Post.bind' ?_; intro mins
+    refine Post.bind' ?_; intro range
+    refine Post.bind' ?_; intro bits
+    refine Post.bindP (Post.require _) ?_; intro _ hb
+    refine Post.pure ?_; intro _
+    refine ⟨fun _ => ⟨bits, mins, range, rfl, by simpa using hb⟩, fun h => by omega,
+      fun h => absurd hc h⟩
+  · rename_i hc
+    have hc : ¬ dt = 2 := by simpa using hc
+    split
+    · rename_i hc3
+      have hc3 : dt = 3 := by simpa using hc3
+      refine Post.bind' ?_; intro bits
+      refine Post.pure ?_; intro _
+      exact ⟨fun h => absurd h hc, fun _ => ⟨bits, rfl⟩, fun _ h => absurd hc3 h⟩
+    · rename_i hc3
+      have hc3 : ¬ dt = 3 := by simpa using hc3
+      refine Post.pure ?_; intro _
+      exact ⟨fun h => absurd h hc, fun h => absurd h hc3, fun _ _ => rfl⟩
+
+theorem storeValuesCheck_post (y : SeqAttState) :
+    Post (storeValuesCheck y) (fun _ _ => ¬ y.Blocked) := by
+  unfold storeValuesCheck
+  split
+  · rename_i hc
+    have hc : y.decoderType = 1 := by simpa using hc
+    refine Post.mono (Post.require _) ?_
+    intro _ _ hr hb
+    have hr : 1 ≤ y.desc.dataType ∧ y.desc.dataType ≤ 6 := by simpa using hr
+    rcases hb with ⟨_, hn⟩ | ⟨h3, _⟩
+    · exact hn hr
+    · omega
+  · rename_i hc
+    have hc : ¬ y.decoderType = 1 := by simpa using hc
+    split
+    · split
+      · rename_i bits ht
+        refine Post.mono (Post.require _) ?_
+        intro _ _ hr hb
+        have hr : (2:Int) ≤ bits ∧ bits ≤ 30 := by simpa using hr
+        rcases hb with ⟨h1, _⟩ | ⟨_, b, hb, hn⟩
+        · exact hc h1
+        · rw [ht] at hb
+          cases hb
+          exact hn hr
+      · exact Post.fail _
+    · rename_i hc3
+      have hc3 : ¬ y.decoderType = 3 := by simpa using hc3
+      refine Post.pure ?_; intro _ hb
+      rcases hb with ⟨h1, _⟩ | ⟨h3, _⟩
+      · exact hc h1
+      · exact hc3 h3
+
+theorem phase2L_post (n : Nat) (x : SeqAttState) (hx : x.WF1) :
+    Post (do
+      let stride := dataTypeLength x.desc.dataType * x.desc.numComponents
+      alloc "attribute.Reset" (n * stride)
+      if x.decoderType == 0 then
+        let b ← bytes (n * stride)
+        pure { x with rawValues := b }
+      else
+        let nc := if x.decoderType == 3 then 2 else x.desc.numComponents
+        let sel ← decodeSchemeSelection x.decoderType
+        let tr ← decodeTransformParams x.decoderType x.desc.numComponents
+        let vals ← integerValuesTail sel n nc
+        let s' := { x with portable := vals, transform := tr }
+        storeValuesCheck s'
+        pure s') (fun y _ => y.WF ∧ ¬ y.Blocked) := by
+  obtain ⟨h3, ht, h2, h3'⟩ := hx
+  refine Post.bind' ?_; intro _
+  split
+  · rename_i hc
+    have hc : x.decoderType = 0 := by simpa using hc
+    refine Post.bind' ?_; intro b
+    refine Post.pure ?_; intro _
+    refine ⟨Or.inl ⟨Or.inl hc, ht⟩, ?_⟩
+    rintro (⟨h1, _⟩ | ⟨h1, _⟩)
+    · have : x.decoderType = 1 := h1
+      omega
+    · have : x.decoderType = 3 := h1
+      omega
+  · rename_i hc
+    have hc : ¬ x.decoderType = 0 := by simpa using hc
+    refine Post.bind' ?_; intro sel
+    refine Post.bindP (decodeTransformParams_post _ _) ?_; intro tr htr
+    obtain ⟨t2, t3, t0⟩ := htr
+    refine Post.bind' ?_; intro vals
+    dsimp only
+    refine Post.bindP (storeValuesCheck_post _) ?_; intro _ hnb
+    refine Post.pure ?_; intro _
+    refine ⟨?_, hnb⟩
+    by_cases c2 : x.decoderType = 2
+    · exact Or.inr (Or.inl ⟨c2, h2 c2, t2 c2⟩)
+    · by_cases c3 : x.decoderType = 3
+      · exact Or.inr (Or.inr ⟨c3, (h3' c3).1, (h3' c3).2, t3 c3⟩)
+      · have h1 : x.decoderType = 1 := by
+          clear t2 t3 t0 hnb h2 h3' ht
+          omega
+        exact Or.inl ⟨Or.inr h1, t0 c2 c3⟩
+
+/-- every state the controller < 2.0 produces is well formed and not `Blocked` -/
+theorem decodeSeqStatesLegacy_ok (n : Nat) :
+    Post (decodeSeqStatesLegacy n) (fun l _ => ∀ x ∈ l, x.WF ∧ ¬ x.Blocked) := by
+  unfold decodeSeqStatesLegacy
+  refine Post.bind' ?_; intro descs
+  refine Post.bind' ?_; intro _
+  refine Post.bindP (Post.mapM'_all (P := fun _ => True) (fun d _ => phase1_post d) descs
+    (fun _ _ => trivial)) ?_
+  intro st1 h1
+  refine Post.bind' ?_; intro _
+  refine Post.bind' ?_; intro _
+  exact Post.mapM'_all (Q := fun (y : SeqAttState) => y.WF ∧ ¬ y.Blocked) (fun x hx => phase2L_post n x hx) st1 h1
+
+/-! ## the states handed to the last phase -/
+
+theorem decodeSeqStatesV_post (n : Nat) :
+    Post (decodeSeqStatesV n) (fun p s' =>
+      ∃ s0, (if p.1 = true then decodeSeqStatesLegacy n s0 else decodeSeqStates n s0)
+        = (some p.2, s')) := by
+  unfold decodeSeqStatesV
+  intro s p s' h
+  obtain ⟨ver, s1, _, h2⟩ := (andThen_some _ _ s s' p).1 h
+  split at h2
+  · obtain ⟨st, s2, h3, h4⟩ := (andThen_some _ _ s1 s' p).1 h2
+    cases h4
+    exact ⟨s1, h3⟩
+  · obtain ⟨st, s2, h3, h4⟩ := (andThen_some _ _ s1 s' p).1 h2
+    cases h4
+    exact ⟨s1, h3⟩
+
+/-- the states handed to the last phase come out of `decodeSeqStates` (streams ≥ 2.0) or
+    `decodeSeqStatesLegacy` (streams < 2.0), run for the number of points of the geometry and
+    ending in the final decoder state -/
+theorem decodePointStatesSeq_post (n : Nat) :
+    Post (decodePointStatesSeq n) (fun p s' => ∀ sts, p.2 = some sts →
+      ∃ s0, (if p.1 = true then decodeSeqStatesLegacy n s0 else decodeSeqStates n s0)
+        = (some sts, s')) := by
+  unfold decodePointStatesSeq
+  intro s o s' h
+  obtain ⟨nd, s1, _, h2⟩ := (andThen_some _ _ s s' o).1 h
+  split at h2
+  · cases h2; intro sts hs; cases hs
+  · split at h2
+    · obtain ⟨p, s2, h3, h4⟩ := (andThen_some _ _ s1 s' o).1 h2
+      cases h4
+      intro sts hs
+      cases hs
+      exact decodeSeqStatesV_post n s1 p s' h3
+    · cases h2
+
+/-- where the states of a front come from -/
+def GeomFront.StatesOK (fr : GeomFront) (s' : DSt) : Prop :=
+  ∀ sts, fr.states = some sts →
+    ∃ s0, (if fr.legacy = true then decodeSeqStatesLegacy fr.numPoints s0
+           else decodeSeqStates fr.numPoints s0) = (some sts, s')
+
+/-- the property of `geomFront_states`, on a `StreamFront` -/
+def StreamFront.StatesOK : StreamFront → DSt → Prop
+  | .seq fr, s' => fr.StatesOK s'
+  | .eb _, _ => True
+  | .kd _, _ => True
+
+theorem streamFront_states : Post streamFront StreamFront.StatesOK := by
+  unfold streamFront
+  refine Post.bind' ?_; intro h
+  refine Post.bind' ?_; intro _
+  refine Post.bind' ?_; intro _
+  refine Post.ite (Post.failWith _ _) ?_
+  refine Post.ite (Post.failWith _ _) ?_
+  refine Post.bind' ?_; intro _
+  have key : ∀ md : Option GeometryMetadata, Post
+      (if (h.encoderMethod != 0 && h.encoderType == 1) = true then pure (StreamFront.eb md)
+        else
+        if (h.encoderMethod != 0) = true then pure (StreamFront.kd md)
+        else
+          if (h.encoderType == 1) = true then do
+            let __x ← decodeSeqConnectivity
+            match __x with
+              | (numPoints, faces) => do
+                let st ← decodePointStatesSeq numPoints
+                pure (StreamFront.seq ⟨true, numPoints, faces, md, st.2, st.1⟩)
+          else do
+            let np ← rdI32
+            declare (toUnsigned 32 np)
+            let st ← decodePointStatesSeq (toUnsigned 32 np)
+            pure (StreamFront.seq ⟨false, toUnsigned 32 np, [], md, st.2, st.1⟩))
+      StreamFront.StatesOK := by
+    intro md
+    refine Post.ite (Post.pure (fun _ => trivial)) ?_
+    refine Post.ite (Post.pure (fun _ => trivial)) ?_
+    refine Post.ite ?_ ?_
+    · apply Post.bind'; rintro ⟨np, faces⟩
+      refine Post.bind (decodePointStatesSeq_post np) ?_
+      intro o s1 ho b s' hb
+      cases hb
+      exact ho
+    · refine Post.bind' ?_; intro np
+      refine Post.bind' ?_; intro _
+      refine Post.bind (decodePointStatesSeq_post _) ?_
+      intro o s1 ho b s' hb
+      cases hb
+      exact ho
+  refine Post.ite ?_ ?_
+  · refine Post.bind' ?_; intro md
+    exact key md
+  · refine Post.bind' ?_; intro md
+    exact key md
+
+/-- `geomFront` accepts exactly when `streamFront` accepts with a sequential stream -/
+theorem geomFront_some_iff (s s' : DSt) (fr : GeomFront) :
+    geomFront s = (some fr, s') ↔ streamFront s = (some (.seq fr), s') := by
+  unfold geomFront
+  simp only [bind]
+  rw [DecM.andThen_some]
+  constructor
+  · rintro ⟨fg, s1, h1, h2⟩
+    cases fg with
+    | seq fr' => cases h2; exact h1
+    | eb _ => cases h2
+    | kd _ => cases h2
+  · intro h
+    exact ⟨_, _, h, rfl⟩
+
+theorem geomFront_states : Post geomFront GeomFront.StatesOK := by
+  intro s fr s' h
+  exact streamFront_states s _ s' ((geomFront_some_iff s s' fr).1 h)
+
+/-- every per-attribute state handed to the last phase is well formed -/
+theorem geomFront_wf (s s' : DSt) (fr : GeomFront) (h : geomFront s = (some fr, s'))
+    (sts : List SeqAttState) (hs : fr.states = some sts) : ∀ x ∈ sts, x.WF := by
+  obtain ⟨s0, h0⟩ := geomFront_states s fr s' h sts hs
+  cases hl : fr.legacy with
+  | false =>
+    simp only [hl, Bool.false_eq_true, if_false] at h0
+    exact decodeSeqStates_wf fr.numPoints s0 sts s' h0
+  | true =>
+    simp only [hl, if_true] at h0
+    exact fun x hx => (decodeSeqStatesLegacy_ok fr.numPoints s0 sts s' h0 x hx).1
+
+/-- a front of a stream < 2.0 has no `Blocked` state: the checks ran while decoding -/
+theorem geomFront_legacy_notBlocked (s s' : DSt) (fr : GeomFront)
+    (h : geomFront s = (some fr, s')) (hl : fr.legacy = true)
+    (sts : List SeqAttState) (hs : fr.states = some sts) : ∀ x ∈ sts, ¬ x.Blocked := by
+  obtain ⟨s0, h0⟩ := geomFront_states s fr s' h sts hs
+  simp only [hl, if_true] at h0
+  exact fun x hx => (decodeSeqStatesLegacy_ok fr.numPoints s0 sts s' h0 x hx).2
+
+/-- a front with a `Blocked` state belongs to a stream ≥ 2.0 and its states come out of
+    `decodeSeqStates` -/
+theorem geomFront_blocked_not_legacy (s s' : DSt) (fr : GeomFront)
+    (h : geomFront s = (some fr, s')) (sts : List SeqAttState) (hs : fr.states = some sts)
+    (x : SeqAttState) (hx : x ∈ sts) (hb : x.Blocked) :
+    fr.legacy = false ∧ ∃ s0, decodeSeqStates fr.numPoints s0 = (some sts, s') := by
+  cases hl : fr.legacy with
+  | true => exact absurd hb (geomFront_legacy_notBlocked s s' fr h hl sts hs x hx)
+  | false =>
+    obtain ⟨s0, h0⟩ := geomFront_states s fr s' h sts hs
+    simp only [hl, Bool.false_eq_true, if_false] at h0
+    exact ⟨rfl, s0, h0⟩
+
+/-- on every front that `geomFront` produces the last phase is given by `finishPure` -/
+theorem finishGeomPureV_eq (s s' : DSt) (fr : GeomFront) (h : geomFront s = (some fr, s'))
+    (S : List Nat) : finishGeomPureV S fr = finishGeomPure S fr := by
+  unfold finishGeomPureV finishGeomPure
+  cases hst : fr.states with
+  | none => rfl
+  | some sts =>
+    simp only [finishAttsPureV, finishAttsPure]
+    rw [DecM.mapOpt_congr (finishPureV fr.legacy S fr.numPoints) (finishPure S fr.numPoints) sts]
+    intro x hx
+    unfold finishPureV
+    split
+    · rename_i hl
+      exact finishSeqPure_eq_finishPure S fr.numPoints x (geomFront_wf s s' fr h sts hst x hx)
+        (geomFront_legacy_notBlocked s s' fr h hl sts hst x hx)
+    · rfl
+
+/-! ## acceptance of the sequential decoder in terms of the front -/
+
+/-- `decodeGeometrySeq opts` accepts with result `r` and final state `s'` exactly when the front
+    part accepts with final state `s'` and the (pure, input-free) last phase is defined -/
+theorem decodeGeometrySeq_some_iff (opts : DecOpts) (s s' : DSt) (r : DecodeResult) :
+    decodeGeometrySeq opts s = (some r, s') ↔
+      ∃ fr, geomFront s = (some fr, s') ∧ finishGeomPure opts.skip fr = some r := by
+  rw [decodeGeometrySeq_eq]
+  simp only [bind]
+  rw [DecM.andThen_some]
+  constructor
+  · rintro ⟨fr, s1, h1, h2⟩
+    rw [finishGeom_eq, DecM.ofOption_some] at h2
+    obtain ⟨h2, rfl⟩ := h2
+    rw [finishGeomPureV_eq s s' fr h1] at h2
+    exact ⟨fr, h1, h2⟩
+  · rintro ⟨fr, h1, h2⟩
+    refine ⟨fr, s', h1, ?_⟩
+    rw [finishGeom_eq, DecM.ofOption_some, finishGeomPureV_eq s s' fr h1]
+    exact ⟨h2, rfl⟩
+
+theorem decodeGeometrySeq_isSome_iff (opts : DecOpts) (s : DSt) :
+    (decodeGeometrySeq opts s).1.isSome ↔
+      ∃ fr s', geomFront s = (some fr, s') ∧ (finishGeomPure opts.skip fr).isSome := by
+  constructor
+  · intro h
+    cases hd : decodeGeometrySeq opts s with
+    | mk o s' =>
+      rw [hd] at h
+      cases o with
+      | none => cases h
+      | some r =>
+        obtain ⟨fr, h1, h2⟩ := (decodeGeometrySeq_some_iff opts s s' r).1 hd
+        exact ⟨fr, s', h1, by rw [h2]; rfl⟩
+  · rintro ⟨fr, s', h1, h2⟩
+    cases hf : finishGeomPure opts.skip fr with
+    | none => rw [hf] at h2; cases h2
+    | some r =>
+      rw [(decodeGeometrySeq_some_iff opts s s' r).2 ⟨fr, h1, hf⟩]; rfl
+
 /-! ## lifting element-wise facts to the whole result -/
 
 /-- what is the same in two results whatever the skip lists, plus an element-wise relation
@@ -987,7 +1334,7 @@ theorem decodeGeometrySeq_none_of_front (opts : DecOpts) (s s' : DSt) (fr : Geom
     decodeGeometrySeq opts s =
       (none, if s'.status == .ok then { s' with status := .error } else s') := by
   rw [decodeGeometrySeq_eq]
-  simp only [bind, DecM.andThen, h, finishGeom_eq, hf]
+  simp only [bind, DecM.andThen, h, finishGeom_eq, finishGeomPureV_eq s s' fr h, hf]
   rfl
 
 /-- a run of the dispatcher is a run of the front part followed by a run of the rest -/
